@@ -1,0 +1,59 @@
+// Copyright 2020-2025 Buf Technologies, Inc.
+//
+// Licensed under the Apache License, Version 2.0 (the "License");
+// you may not use this file except in compliance with the License.
+// You may obtain a copy of the License at
+//
+//      http://www.apache.org/licenses/LICENSE-2.0
+//
+// Unless required by applicable law or agreed to in writing, software
+// distributed under the License is distributed on an "AS IS" BASIS,
+// WITHOUT WARRANTIES OR CONDITIONS OF ANY KIND, either express or implied.
+// See the License for the specific language governing permissions and
+// limitations under the License.
+
+//go:build verif
+
+package bufprotocompile
+
+// Contracts for the gocv verifier: compile diagnostics (C01). Comment-only.
+//
+//@ trusted pure interface reporter.ErrorWithPos
+//
+// The file info of a diagnostic (verified: plain record).
+//@ func newFileInfo(path, externalPath) (r)
+//@   property C01
+//@   ensures r != nil && r.path == path && r.externalPath == externalPath
+//@ func (f *fileInfo) Path() (r)
+//@   property C01
+//@   ensures r == f.path
+//@ func (f *fileInfo) ExternalPath() (r)
+//@   property C01
+//@   ensures r == f.externalPath
+//
+//@ func newFileAnnotationOptions() (r)
+//@   property C01
+//@   ensures r != nil && r.externalPathResolver == nil
+//
+// FileAnnotationForErrorWithPos: a compile error becomes a diagnostic positioned at the compiler's line:column
+// (never negative), typed COMPILE, whose file is the normalized compiler path and whose external path is
+// what the caller's resolver (buildImage: the parser accessor's ExternalPath, i.e. "the path the user gave")
+// maps that path to. The resolver is modelled as a deterministic function (callback pure).
+//@ func FileAnnotationForErrorWithPos(errorWithPos, options) (r, err)
+//@   property C01
+//@   modifies heap
+//@   callback pure externalPathResolver
+//@   ensures fails-only-on-invalid-path: (err == nil) <==> (errorWithPos.GetPosition().Filename == "" || second(normalpath.NormalizeAndValidate(errorWithPos.GetPosition().Filename)) == nil)
+//@   ensures no-annotation-on-error: err != nil ==> r == nil
+//@   ensures line: err == nil ==> r != nil && r.StartLine() == max(errorWithPos.GetPosition().Line, 0) && r.EndLine() == max(errorWithPos.GetPosition().Line, 0)
+//@   ensures column: err == nil ==> r.StartColumn() == max(errorWithPos.GetPosition().Col, 0) && r.EndColumn() == max(errorWithPos.GetPosition().Col, 0)
+//@   ensures type-compile: err == nil ==> r.Type() == "COMPILE" && r.PluginName() == ""
+//@   ensures no-file-without-filename: err == nil && errorWithPos.GetPosition().Filename == "" ==> r.FileInfo() == nil
+//@   ensures file-is-compiler-path: err == nil && errorWithPos.GetPosition().Filename != "" ==> r.FileInfo() != nil && typeOf(r.FileInfo()) == typeId(*fileInfo) && cast(*fileInfo, r.FileInfo()).path == first(normalpath.NormalizeAndValidate(errorWithPos.GetPosition().Filename))
+//@   ensures external-path-is-resolved: err == nil && errorWithPos.GetPosition().Filename != "" ==> cast(*fileInfo, r.FileInfo()).externalPath == ite(fileAnnotationOptions.externalPathResolver != nil, fileAnnotationOptions.externalPathResolver(first(normalpath.NormalizeAndValidate(errorWithPos.GetPosition().Filename))), first(normalpath.NormalizeAndValidate(errorWithPos.GetPosition().Filename)))
+//@   canary ensures err != nil
+//
+// NewFileAnnotation stores what it is given (trusted: dynamic dispatch from the FileAnnotation interface to
+// the plain record *fileAnnotation built by newFileAnnotation).
+//@ trusted func bufanalysis.NewFileAnnotation(fileInfo, startLine, startColumn, endLine, endColumn, typeString, message, pluginName) (r)
+//@   ensures r != nil && r.FileInfo() == fileInfo && r.StartLine() == startLine && r.StartColumn() == startColumn && r.EndLine() == endLine && r.EndColumn() == endColumn && r.Type() == typeString && r.Message() == message && r.PluginName() == pluginName
